@@ -802,16 +802,18 @@ func (e *Exec) doSend(g *G, ch *ChanV, v Value) bool {
 		e.raise(g, IfaceV{T: e.prog.runtimeErrType, V: concStr("send on closed channel")}, "send on closed channel", true)
 		return false
 	}
-	g.vc.tick(g.id)
 	if w := e.firstWaiter(ch, false); w != nil {
 		w.g.vc.join(g.vc)
 		g.vc.join(w.g.vc) // unbuffered rendezvous synchronises both ways
+		g.vc.tick(g.id)
+		w.g.vc.tick(w.g.id)
 		e.completeWaiter(w, v, true)
 		return true
 	}
 	if len(ch.Buf) < ch.Cap {
 		ch.Buf = append(ch.Buf, v)
 		ch.sendVCs = append(ch.sendVCs, g.vc.clone())
+		g.vc.tick(g.id)
 		return true
 	}
 	panic("doSend on non-ready channel")
@@ -857,9 +859,9 @@ func (e *Exec) closeChan(g *G, ch *ChanV) bool {
 		e.raise(g, IfaceV{T: e.prog.runtimeErrType, V: concStr("close of closed channel")}, "close of closed channel", true)
 		return false
 	}
-	g.vc.tick(g.id)
 	ch.Closed = true
 	ch.vc = g.vc.clone()
+	g.vc.tick(g.id)
 	// wake all receivers; senders will panic on retry
 	ws := e.waiters[ch]
 	e.waiters[ch] = nil
